@@ -66,7 +66,7 @@ SysP(e, p) ==
                [] OTHER -> FALSE
        /\ CAcqStep(p)
     \/ /\ ps[p].pc = "refuse"
-       /\ LET o == CleanerRefuse[ps[p].idx][ps[p].k] IN
+       /\ LET o == TailOf(ps[p].idx, ps[p].gone)[ps[p].k] IN
           /\ OpIs(e, o)
           /\ e.obs = (IF o.op = "fstat" THEN perm[o.f] ELSE OpObs(o))
        /\ CRefuseStep(p)
